@@ -25,14 +25,14 @@ Definition TAG_PATTERN : list N := [60; 92; 115; 42; 91; 65; 45; 90; 97; 45; 122
 Definition ATTR_PATTERN : list N := [40; 40; 92; 115; 43; 124; 94; 41; 91; 65; 45; 90; 97; 45; 122; 93; 91; 65; 45; 90; 97; 45; 122; 48; 45; 57; 58; 45; 93; 42; 40; 61; 124; 62; 124; 92; 115; 41; 124; 92; 115; 42; 62; 41]%N.
 Definition attrs_re_calls : list (string * list N * string) := [("match"%string, [101; 120; 112; 114; 58; 115; 101; 108; 102; 46; 65; 84; 84; 82; 95; 80; 65; 84; 84; 69; 82; 78]%N, ""%string); ("search"%string, [101; 120; 112; 114; 58; 115; 101; 108; 102; 46; 65; 84; 84; 82; 95; 80; 65; 84; 84; 69; 82; 78]%N, "re.MULTILINE"%string); ("search"%string, [101; 120; 112; 114; 58; 97; 116; 116; 114; 95; 112; 97; 114; 116; 115; 91; 45; 49; 93]%N, ""%string); ("search"%string, [40; 92; 115; 124; 62; 41]%N, ""%string); ("search"%string, [101; 120; 112; 114; 58; 115; 101; 108; 102; 46; 84; 65; 71; 95; 80; 65; 84; 84; 69; 82; 78]%N, ""%string)].
 Definition minimize_options : list string := ["--min default=1 type=int"%string; "--max default=pow(2, 30) type=int"%string; "--repeat choices=['always', 'last', 'never'] default='last'"%string; "--chunk-size default=None type=int"%string; "--repeat-first-round action='store_true'"%string; "--max-run-time default=None type=int"%string].
-Definition minimize_process_args : string := "super().process_args(parser, args) ; if args.chunk_size:
+Definition minimize_process_args : string := "super().process_args(parser, args) ; if args.chunk_size is not None:
     self.minimize_min = args.chunk_size
     self.minimize_max = args.chunk_size
     self.minimize_repeat = 'never'
 else:
     self.minimize_min = args.min
     self.minimize_max = args.max
-    self.minimize_repeat = args.repeat ; self.minimize_repeat_first_round = args.repeat_first_round ; if args.max_run_time:
+    self.minimize_repeat = args.repeat ; self.minimize_repeat_first_round = args.repeat_first_round ; if args.max_run_time is not None:
     self.stop_after_time = args.max_run_time ; if not is_power_of_two(self.minimize_min):
     parser.error('Min must be a power of two.') ; if not is_power_of_two(self.minimize_max):
     parser.error('Max must be a power of two.')"%string.
